@@ -56,7 +56,7 @@ META = dict(
          'stream including 0 / False / empty (== != < <= > >= not in is-None containment, and/or combinations), expected selection '
          'from the expression evaluated directly on the parameter values of a fresh full decode of each piece.',
     technique='Lean 4 theorems (induction over the list of pieces, no-border lemma for BUFR) + checked model/implementation correspondence',
-    note='In the theorems the filter is an arbitrary predicate on the metadata-only decoding; the checked correspondence evaluates a '
+    note='Source tie: decoder.generate_bufr_message is re-translated from the repository into Lean on every check (harness/py2lean.py, Gen/PyDecoder.lean; the code it calls is a record of callbacks, the generator is the list of yielded values plus how it ended) and C11_src_generate_eq proves, for every byte string, every combination of info_only / continue_on_error / filter_expr and all callbacks (length.value >= 0, the table-definition calls do not raise), that it yields exactly the items of the model scan and ends as the model says (exhausted / an exception of the same class / does not terminate where the model reports an advance by 0); C12_src_resume_policy reads the continue-on-error skip (+1 in info-only mode, else + length.value of a metadata-only decode, else +1) off the translated source. In the theorems the filter is an arbitrary predicate on the metadata-only decoding; the checked correspondence evaluates a '
          'modelled fragment of Python expressions (Lang/FilterExpr.lean: comparison, not, and/or, in, is None over None/int/bool/str/'
          'bytes/list). The filter sees the metadata-only decode: template_data and section 5 (stop_signature) are not in it '
          '(%stop_signature is None there); such expressions are compared model-vs-implementation only. The table-definition side '
